@@ -22,15 +22,15 @@ CHECKS = {
        "exactly (a, b), gain returns a (b = 0), gain-blk-offset returns (a, b) under the std/percentile hypotheses, R2 = 1; a "
        "normalised weighted-mean resampler keeps constants and commutes with affine maps; hence the up-sampled parameters are "
        "(a, b) and the corrected value at a source pixel is a src + b at its own location (11 theorems); the kernel-formula source-tie "
-       "theorems, the end-to-end block transparency theorem (Props/E2E.lean) and the WHOLE-IMAGE line-recovery theorems (Props/E2ELine.lean: if ref = a x (+ b) of the source as seen on the reference grid, every valid corrected pixel is a src (+ b) at its own location, for every geometry, kernel and nearest/bilinear up-sampling) are audited here too. Tied to the code by real "
+       "theorems, the end-to-end block transparency theorem (Props/E2E.lean) and the WHOLE-IMAGE line-recovery theorems (Props/E2ELine.lean: if ref = a x (+ b) of the source as seen on the reference grid, every valid corrected pixel is a src (+ b) at its own location, for every geometry, kernel and nearest/bilinear up-sampling; Props/E2EWide.lean: the same for cubic and the default cubic_spline, whose weights are proved to be a partition of unity) are audited here too. Tied to the code by real "
        "fusions of pairs constructed with the model's exact `average` resampler (ratios 1..4 incl. 5:2, 20:9, sub-pixel offsets, "
        "nodata borders/holes, NaN / numeric / internal-mask nodata, 1-3 bands with band-specific (a,b), three models, 1..64 blocks, "
        "threads 1/2/4, both processing grids): |corrected - (a src + b)| <= 2e-4 range at every valid source pixel, "
        "RasterCompare RMSE ~ 0; by a direct differential run of RasterArray.reproject against the resampling model; and by a "
        "whole-image oracle: RasterFuse.process on unrelated random source/reference images against the executable model of the "
-       "complete reference-grid pipeline (Model/FuseImage.lean: average down-sampling, kernel fit, nearest/bilinear up-sampling, "
+       "complete reference-grid pipeline (Model/FuseImage.lean, Model/Cubic.lean: average down-sampling, kernel fit, nearest/bilinear/cubic/cubic_spline up-sampling, "
        "apply) - validity exact, values to a float32 budget.",
-  note="GDAL warp = normalised weighted mean (average: overlap areas; nearest/bilinear: centre rule) is modelled and measured, "
+  note="GDAL warp = normalised weighted mean (average: overlap areas; nearest/bilinear/cubic_spline: centre rule; cubic: convolution with bilinear fall-back) is modelled and measured, "
        "not proved. Degenerate windows (single valid pixel / constant source under gain-offset) are excluded by hypothesis "
        "(partial). In decimal geometry value oracles avoid exactly coinciding pixel edges (GDAL float noise changes validity "
        "there, also on dyadic grids whose pixel size is not a power of two: GDAL multiplies by an inexact inverse geotransform); "
@@ -43,7 +43,7 @@ CHECKS = {
        "processing pixel carries parameters and the up-sampling weights are non-negative (src_valid_imp_corrected_valid), with "
        "the chain behind the premise: a normalised mean over positive weights exists and is positive on positive data, the "
        "pixel is in its own kernel window, so the gain fit exists on positive data (12 theorems); end to end for the whole-image "
-       "model (Props/E2EMask.lean): no invented pixels for every model and method, no lost pixels for the gain model on positive "
+       "model (Props/E2EMask.lean, Props/E2EWide.lean - validity is the same for nearest, bilinear, cubic and the default cubic_spline): no invented pixels for every model and method, no lost pixels for the gain model on positive "
        "data with nearest/bilinear up-sampling, and the same through every block (block_mask_eq_whole). Tied to the code by ~45 (quick) / "
        "900 (thorough) real fusions over validity patterns x geometry x models x kernels x grids x blocks x output nodata/dtype x "
        "up-sampling: subset always, equality under the hypotheses; plus the resampler validity rules against GDAL.",
@@ -78,12 +78,16 @@ CHECKS = {
        "all models given the same block normalisation), and partitions_agree; source-tie theorems for overlap_for_kernel and the "
        "block loop of block_pairs; source-grid processing (Props/E2ESrc.lean): block_transparent_src_grid for average (the automatic "
        "source grid) and nearest, for bilinear up to a reference pixel three source pixels wide, with a kernel-checked "
-       "counterexample beyond (forced grid, outside this property). Tied to the code by pairs of real fusions (1 block vs "
+       "counterexample beyond (forced grid, outside this property); THE 4 x 4 KERNELS (Model/Cubic.lean, Props/E2EWide.lean): cubic "
+       "(with GDAL's bilinear fall-back) and cubic_spline (the default) are modelled exactly; block_transparent_wide - a source pixel "
+       "gets from its block the value of the single-block run unless the reference pixel under its centre is the first / last "
+       "row or column of the block's output window next to another block (the property's 'within one processing-grid pixel of a "
+       "block boundary'), with a kernel-checked counterexample at such a seam; block_mask_eq_whole_wide - validity agrees everywhere. "
+       "Tied to the code by pairs of real fusions (1 block vs "
        "1..6 halvings): parameter images identical (bit-identical on dyadic integer-exact data), corrected identical for nearest/"
        "bilinear/source grid, cubic-spline differences confined to one processing pixel of a seam; overlap_for_kernel vs model; and "
        "multi-block real fusions against the whole-image model (Model/FuseImage.lean), which has no blocks at all.",
-  note="gain-blk-offset and in-painting have a per-block term and are excluded (partial), as the property states. The confinement "
-       "for 4x4 kernels is measured, not proved.",
+  note="gain-blk-offset and in-painting have a per-block term and are excluded (partial), as the property states.",
   tech="Lean 4 proof (omega on windows, list congruence) + partition-pair differential runs", ref='7 C05'),
  'C06': dict(
   text="Proof (Lean 4): for all origins, pixel sizes, image sizes, block lengths s>0 and overlaps v>=0 the processing-grid "
@@ -106,7 +110,7 @@ CHECKS = {
   text="Proof (Lean 4) over exact rationals, for every block, mask, kernel, model, R2/in-paint setting and positive factors a, c: "
        "fit(a src, c ref) = (c/a gain, c offset, same R2) at every pixel (fit_scale, and its src-only / ref-only corollaries), "
        "masks and R2 unchanged, apply gives c times the corrected value, resampling (normalised weighted mean) is homogeneous, the "
-       "corrected pixel through the up-sampled parameters scales accordingly, variance scales with the square (9 theorems); whole image (Props/E2ELine.lean, whole_image_scale): scaling source by s > 0 and reference by t > 0 multiplies every corrected pixel by t and preserves validity, for every geometry, kernel and resampling method. Tied to "
+       "corrected pixel through the up-sampled parameters scales accordingly, variance scales with the square (9 theorems); whole image (Props/E2ELine.lean whole_image_scale, Props/E2EWide.lean whole_image_scale_wide): scaling source by s > 0 and reference by t > 0 multiplies every corrected pixel by t and preserves validity, for every geometry, kernel and resampling method incl. cubic and the default cubic_spline. Tied to "
        "the code by triples of real fusions (base, source x a, reference x c): bit-identical corrected/parameter images and masks "
        "after the exact rescale for power-of-two factors (all models, in-painting on/off, 1..16 blocks, both grids), relative "
        "tolerance for general factors; and by the real KernelModel.fit on scaled blocks against the model of the unscaled block.",
